@@ -1,0 +1,17 @@
+//go:build verif
+
+package goat
+
+import "github.com/avos-io/goat/verifhook"
+
+func vEmit(ev string, obj any, id uint64, n int, s string) { verifhook.Emit(ev, obj, id, n, s) }
+func vGate(name string, obj any, id uint64)                { verifhook.Gate(name, obj, id) }
+
+// VerifParseGrpcTimeout exposes the timeout parser to the verification harness.
+func VerifParseGrpcTimeout(s string) (int64, bool) {
+	d, ok := parseGrpcTimeout(s)
+	return int64(d), ok
+}
+
+// VerifRegistrySize reports the size of the client connection's call registry.
+func (cc *ClientConn) VerifRegistrySize() int { return cc.mp.VerifRegistrySize() }
